@@ -504,6 +504,14 @@ func matchesGates(p *Prog, r *Report, id string, only ...string) {
 				}
 			}
 		}
+		if bad != "" || nret == 0 {
+			// the facts are not visible at the returns (helpers with several results, early returns over locals …):
+			// decide by evaluation — with any single documented atom fixed to the opposite value no path returns true
+			if gateByEval(sf, g.fn) {
+				r.OK(site, p.PosStr(fi.Decl.Pos()), fmt.Sprintf("evaluated: with any one of %v %s violated no path returns true", g.flags, g.extra))
+				continue
+			}
+		}
 		switch {
 		case nret == 0:
 			r.Bad(site, p.PosStr(fi.Decl.Pos()), "Matches can never return true (rule disabled) or its shape is not recognised")
